@@ -13,7 +13,7 @@
    [trace_ok] (Servers/Trace.v) is the property evaluated on an observation, [C14_ok] its instance
    used by the correspondence (Servers/C14Judge.v). *)
 From SC Require Import Base.Prelude Msg.Msg Msg.Schema Msg.Path Masks.Get Masks.GetProofs
-  Resource.Impl Resource.Pull Servers.Kinds Servers.GenericServer Servers.GenericServerProofs
+  Masks.Update Resource.Impl Resource.Pull Servers.Kinds Servers.GenericServer Servers.GenericServerProofs
   Servers.Trace Servers.TraceProofs Servers.Stack Servers.StackProofs
   Servers.TraceOf Servers.C14Judge Servers.C14JudgeProofs Gen.Servers.
 Section C14.
@@ -171,6 +171,76 @@ Theorem C14_judge_sound : forall server init evs streams parts,
   agrees (KTrace server init evs streams parts) = true -> C14_ok (KTrace server init evs streams parts) = true.
 Proof. exact judge_sound. Qed.
 Print Assumptions C14_judge_sound.
+
+(* the same for every case shape: with the oracle table of the configured comparer and with the Update
+   requests of the servers whose business rule is written out (the model then runs with that rule) *)
+Theorem C14_judge_sound_all : forall c,
+  C14_guard c = true -> trace_wf (c_server c) (c_init c) (c_evs c) = true -> agrees c = true -> C14_ok c = true.
+Proof. exact judge_sound_all. Qed.
+Print Assumptions C14_judge_sound_all.
+
+(* ---- the business rules written out in Servers/C14Judge.v (onoff, press, air temperature x2, count,
+   speaker volume without delta, mode values without relative, fan speed without relative) meet the
+   [rule] interface the theorems above quantify over: they answer with a value or a gRPC status ---- *)
+Theorem C14_hand_rules_are_rules : forall ty h base q c,
+  hand_rule ty h base q = Some (inr c) -> is_status c = true.
+Proof. exact hand_rule_status. Qed.
+Print Assumptions C14_hand_rules_are_rules.
+
+(* ---- the configured equivalence, as the judge reads it: the real comparer's verdicts (oracle table)
+   count only between values that differ in float leaves alone -- a tolerance ---- *)
+Theorem C14_oracle_equivalence_is_tolerance : forall t a b,
+  oracle_equiv t (Some a) (Some b) = true -> strip_floats a = strip_floats b.
+Proof. exact oracle_equiv_is_tolerance. Qed.
+Print Assumptions C14_oracle_equivalence_is_tolerance.
+
+(* what the three mechanisms catch, on the shapes of the observations they were built for *)
+Definition fan_key := "fanspeedpb.ModelServer/FanSpeedApi.FanSpeed".
+Example C14_lost_near_equal_write_is_a_failing_input :
+  (* a write within the tolerance of the stored value is acknowledged with the new value but not stored *)
+  let a := VM [("percentage", VS (SF32 1008971033)); ("preset_index", VS (SInt (-1))); ("direction", VS (SEnum 1))] in
+  let b := VM [("percentage", VS (SF32 1017359641)); ("preset_index", VS (SInt (-1))); ("direction", VS (SEnum 1))] in
+  let i := VM [("preset", VS (SStr "off")); ("direction", VS (SEnum 1))] in
+  let t := [(a, b); (b, a); (a, a); (b, b); (i, i)] in
+  judge (KTraceX fan_key i [TUpdate "dev" (inl a); TUpdate "dev" (inl b); TGet "dev" None (inl (Some a))] [] [] t []) = 3 /\
+  judge (KTraceX fan_key i [TUpdate "dev" (inl a); TUpdate "dev" (inl b); TGet "dev" None (inl (Some b))] [] [] t []) = 0.
+Proof. vm_compute. split; reflexivity. Qed.
+
+Example C14_comparer_ignoring_a_field_is_a_failing_input :
+  (* the comparer relates two values that differ in [direction]: not a tolerance, the Update must be
+     streamed (stated on the predicate with the oracle equivalence, independent of the generated table) *)
+  let ok := fun t init evs streams =>
+    trace_ok value_eqb ref_proj (equiv_of EqOracle t) dev_names (mkTrace (Some init) evs streams) in
+  let i := VM [("preset", VS (SStr "off")); ("direction", VS (SEnum 1))] in
+  let j := VM [("preset", VS (SStr "off"))] in
+  let t := [(i, j); (j, i); (i, i); (j, j)] in
+  ok t i [TOpen "dev" None false; TUpdate "dev" (inl j)] [([("dev", i)], None)] = false /\
+  ok t i [TOpen "dev" None false; TUpdate "dev" (inl j)] [([("dev", i); ("dev", j)], None)] = true /\
+  (* ... while a float within the tolerance may stay unsent, or be sent *)
+  let a := VM [("percentage", VS (SF32 1008971033)); ("preset_index", VS (SInt (-1))); ("direction", VS (SEnum 1))] in
+  let b := VM [("percentage", VS (SF32 1017359641)); ("preset_index", VS (SInt (-1))); ("direction", VS (SEnum 1))] in
+  let t' := [(a, b); (b, a); (a, a); (b, b)] in
+  ok t' a [TOpen "dev" None false; TUpdate "dev" (inl b)] [([("dev", a)], None)] = true /\
+  ok t' a [TOpen "dev" None false; TUpdate "dev" (inl b)] [([("dev", a); ("dev", b)], None)] = true /\
+  (* ... and without the comparer's verdict it must be sent *)
+  ok [] a [TOpen "dev" None false; TUpdate "dev" (inl b)] [([("dev", a)], None)] = false.
+Proof. vm_compute. repeat split; reflexivity. Qed.
+
+Example C14_hand_rule_catches_a_wrong_response :
+  (* countpb: UpdateCount{count:{added:2}} on a fresh device; a response (and Get) showing added = 3 is
+     coherent with itself -- the property predicate holds -- and still not what the rule says *)
+  let key := "countpb.MemoryDevice/CountApi.Count" in
+  let rt := ("reset_time", VM [("seconds", VS (SInt 5))]) in
+  let q := mkU (Some (VM [("added", VS (SInt 2))])) None (VM [("name", VS (SStr "dev"))]) in
+  let bad := VM [("added", VS (SInt 3)); rt] in
+  let good := VM [("added", VS (SInt 2)); rt] in
+  judge (KTraceX key (VM [rt]) [TUpdate "dev" (inl bad); TGet "dev" None (inl (Some bad))] [] [] [] [q]) = 1 /\
+  judge (KTraceX key (VM [rt]) [TUpdate "dev" (inl good); TGet "dev" None (inl (Some good))] [] [] [] [q]) = 0 /\
+  (* delta adds the stored count, in int32 *)
+  let qd := mkU (Some (VM [("added", VS (SInt 2147483647))])) None (VM [("name", VS (SStr "dev")); ("delta", VS (SBool true))]) in
+  let wrapped := VM [("added", VS (SInt (-2147483647))); rt] in
+  judge (KTraceX key good [TUpdate "dev" (inl wrapped); TGet "dev" None (inl (Some wrapped))] [] [] [] [qd]) = 0.
+Proof. vm_compute. repeat split; reflexivity. Qed.
 
 (* ---- defects ---- *)
 (* fixed (4 handlers: count Update/Reset, emergency, air temperature memory device): the handler
